@@ -15,6 +15,8 @@ import sys
 from concurrent.futures import ThreadPoolExecutor
 
 VERIF = os.path.dirname(os.path.dirname(os.path.abspath(__file__)))
+SEED_ROOT = os.environ.get("SEED_ROOT", "/tmp/seed2")
+SEED_TAG = os.environ.get("SEED_TAG", "b")  # round 1: "", round 2: "b"
 
 
 def run(cmd):
@@ -26,7 +28,7 @@ def main():
     pid, k = sys.argv[1], sys.argv[2]
     others = [a for a in sys.argv[3:] if not a.startswith("--")]
     confirm_only = "--confirm-only" in sys.argv
-    src = f"/tmp/seed/{pid}/out/{k}"
+    src = f"{SEED_ROOT}/{pid}/out/{k}"
     meta = json.load(open(os.path.join(src, "meta.json")))
     if confirm_only:
         rc_c, out_c = run([os.path.join(VERIF, "tools", "seeded_confirm.sh"), src])
@@ -35,7 +37,7 @@ def main():
         m = re.search(r"baseline: (\d+) stable tests, (\d+) missing", out_c)
         missing = int(m.group(2)) if m else None
         ok = before == 0 and after not in (0, None) and missing == 0
-        mp = os.path.join(VERIF, "seeded", f"{pid}-{k}", "meta.json")
+        mp = os.path.join(VERIF, "seeded", f"{pid}-{SEED_TAG}{k}", "meta.json")
         j = json.load(open(mp))
         j["confirmed"] = {"demo_before_rc": before, "demo_after_rc": after, "suite_missing": missing, "ok": ok}
         json.dump(j, open(mp, "w"), indent=1)
@@ -56,7 +58,7 @@ def main():
     confirmed = before == 0 and after not in (0, None) and missing == 0
     old = None
     if try_only:
-        old = json.load(open(os.path.join(VERIF, "seeded", f"{pid}-{k}", "meta.json")))["confirmed"]
+        old = json.load(open(os.path.join(VERIF, "seeded", f"{pid}-{SEED_TAG}{k}", "meta.json")))["confirmed"]
         confirmed = old["ok"]
     results = {}
     cur = None
@@ -78,14 +80,14 @@ def main():
         how = "failing input found: " + d.get("key", d.get("kind", ""))
     else:
         how = "-"
-    dst = os.path.join(VERIF, "seeded", f"{pid}-{k}")
+    dst = os.path.join(VERIF, "seeded", f"{pid}-{SEED_TAG}{k}")
     shutil.rmtree(dst, ignore_errors=True)
     os.makedirs(dst)
     shutil.copy(os.path.join(src, "patch.diff"), dst)
     if os.path.isdir(os.path.join(src, "demo")):
         shutil.copytree(os.path.join(src, "demo"), os.path.join(dst, "demo"))
     meta.update({
-        "id": f"{pid}-{k}",
+        "id": f"{pid}-{SEED_TAG}{k}",
         "confirmed": old or {"demo_before_rc": before, "demo_after_rc": after, "suite_missing": missing, "ok": confirmed},
         "caught": "yes" if caught else "NO",
         "how": how,
